@@ -12,6 +12,7 @@ mod preds {
     include!("/verif/contracts/leaf_preds.rs");
 }
 mod reference;
+mod bounded;
 use preds::*;
 
 fn unhex(s: &str) -> Vec<u8> {
@@ -96,6 +97,10 @@ fn main() {
                 Err(_) => println!("Locale::from_bytes(b\"{}\") PANICKED", esc(&v)),
             }
         }
+        "rt" => { let v = unhex(&args[2]); match bounded::rt_check(&v) { Some(d) => { println!("DISAGREE {}", d); std::process::exit(1); } None => println!("AGREE round trip of b\"{}\"", esc(&v)) } }
+        "inv" => { let v = unhex(&args[2]); match bounded::inv_replay(&v) { Some(d) => { println!("DISAGREE {}", d); std::process::exit(1); } None => println!("AGREE") } }
+        "mut" => { let v = unhex(&args[2]); match bounded::mut_replay(&v) { Some(d) => { println!("DISAGREE {}", d); std::process::exit(1); } None => println!("AGREE") } }
+        "fromparts" => { let v = unhex(&args[2]); match bounded::fromparts_replay(&v) { Some(d) => { println!("DISAGREE {}", d); std::process::exit(1); } None => println!("AGREE") } }
         "search" => {
             let what = args[2].as_str();
             let seed: u64 = args.get(3).and_then(|s| s.parse().ok()).unwrap_or(0);
